@@ -226,3 +226,49 @@ Proof.
   destruct (subst_sound D (parent_set D parents) (parents_single parents) H1 H2 H3) as [_ [_ [HX _]]].
   unfold matches, lower_is. rewrite HX. reflexivity.
 Qed.
+
+(* ------------------------------------------------------------------ *)
+(* the cross-product branch: witnesses *)
+Definition ty1 (t : Z) : complex := XCons (Cp 0 false (Some t) SNil) XNil.
+Definition amp1 : complex := XCons (Cp 0 true None SNil) XNil.
+
+(* C12-N: a, b { :is(&, span) {} } for a target without :is(): the "&" inside the
+   pseudo-class argument is replaced by the first parent in every copy *)
+Definition wN_parents : sellist := LCons (ty1 1) (LCons (ty1 2) LNil).
+Definition wN_child : complex := XCons (Cp 0 false None (SPc false (LCons amp1 (LCons (ty1 4) LNil)) SNil)) XNil.
+Definition wN_doc : list node := [mkN 1 [] None None; mkN 2 [] None (Some 0%nat)].
+
+Lemma expand_amp_in_pseudo_arg_witness :
+  lower_expand wN_parents (LCons wN_child LNil) =
+    [XCons (Cp 0 false None (SPc false (LCons (ty1 1) (LCons (ty1 4) LNil)) SNil)) XNil;
+     XCons (Cp 0 false None (SPc false (LCons (ty1 1) (LCons (ty1 4) LNil)) SNil)) XNil] /\
+  let D := tree_dom wN_doc in
+  existsb (fun s => matches D [] s 1%nat) (lower_expand wN_parents (LCons wN_child LNil)) = false /\
+  matches D (parent_set D wN_parents) (inject_amp wN_child) 1%nat = true.
+Proof. vm_compute. repeat split; reflexivity. Qed.
+
+(* C12-L: div, .c1 { > a {} } without :is(): each copy has its own specificity,
+   natively "&" carries the specificity of :is(div, .c1) *)
+Definition wL_parents : sellist := LCons (ty1 3) (LCons (XCons (Cp 0 false None (SClass 1 SNil)) XNil) LNil).
+Definition wL_child : complex := XCons (Cp 1 false (Some 1) SNil) XNil.
+(* the nested selector with "&" literally replaced by :is(parent list): CSS Nesting's definition of its specificity *)
+Definition native_spec (parents : sellist) (cx : complex) : spec3 :=
+  spec_x (sb_x (XCons (Cp 0 false None (SPc false parents SNil)) XNil) false (inject_amp cx) XNil).
+
+Lemma expand_specificity_witness :
+  map spec_x (lower_expand wL_parents (LCons wL_child LNil)) = [(0, 0, 2); (0, 1, 1)]%nat /\
+  native_spec wL_parents wL_child = (0, 1, 1)%nat.
+Proof. vm_compute. split; reflexivity. Qed.
+
+(* the replayed C12-N input: div, a { :not(&).c1 {} } for firefox70, element a.c1 *)
+Definition wN2_parents : sellist := LCons (ty1 3) (LCons (ty1 1) LNil).
+Definition wN2_child : complex := XCons (Cp 0 false None (SPc true (LCons amp1 LNil) (SClass 1 SNil))) XNil.
+Definition wN2_doc : list node := [mkN 1 [1] None None].
+Lemma expand_not_amp_witness :
+  lower_expand wN2_parents (LCons wN2_child LNil) =
+    [XCons (Cp 0 false None (SPc true (LCons (ty1 3) LNil) (SClass 1 SNil))) XNil;
+     XCons (Cp 0 false None (SPc true (LCons (ty1 3) LNil) (SClass 1 SNil))) XNil] /\
+  let D := tree_dom wN2_doc in
+  existsb (fun s => matches D [] s 0%nat) (lower_expand wN2_parents (LCons wN2_child LNil)) = true /\
+  matches D (parent_set D wN2_parents) (inject_amp wN2_child) 0%nat = false.
+Proof. vm_compute. repeat split; reflexivity. Qed.
